@@ -2000,6 +2000,38 @@ def lower_new_or_returns(fnode, bsrc, stats):
   ast.fix_missing_locations(fnode)
 
 
+def raise_sum_loops(fnode, bsrc, stats):
+  """`acc = 0` directly followed by `for T in IT: acc += E` (nothing else in the loop; E does not read acc), in a function whose reference version
+  computes a `sum(...)` and has no such accumulation loop: `acc = sum([E for T in IT])` (integer addition from 0 in iteration order either way)."""
+  if not any(isinstance(n, ast.Call) and isinstance(n.func, ast.Name) and n.func.id == 'sum' for n in ast.walk(bsrc)):
+    return
+  if any(isinstance(n, ast.For) and len(n.body) == 1 and isinstance(n.body[0], ast.AugAssign) for n in ast.walk(bsrc)):
+    return
+  for b in _blocks(fnode):
+    k = 0
+    while k + 1 < len(b):
+      s1, s2 = b[k], b[k + 1]
+      if (isinstance(s1, ast.Assign) and len(s1.targets) == 1 and isinstance(s1.targets[0], ast.Name) and isinstance(s1.value, ast.Constant) and s1.value.value == 0
+          and not isinstance(s1.value.value, bool) and isinstance(s2, ast.For) and not s2.orelse and len(s2.body) == 1):
+        acc = s1.targets[0].id
+        inner = s2.body[0]
+        e = None
+        if isinstance(inner, ast.AugAssign) and isinstance(inner.op, ast.Add) and isinstance(inner.target, ast.Name) and inner.target.id == acc:
+          e = inner.value
+        elif (isinstance(inner, ast.Assign) and len(inner.targets) == 1 and isinstance(inner.targets[0], ast.Name) and inner.targets[0].id == acc
+              and isinstance(inner.value, ast.BinOp) and isinstance(inner.value.op, ast.Add) and isinstance(inner.value.left, ast.Name) and inner.value.left.id == acc):
+          e = inner.value.right
+        if e is not None and not any(isinstance(n, ast.Name) and n.id == acc for n in ast.walk(e)) and not any(isinstance(n, ast.Name) and n.id == acc for n in ast.walk(s2.iter)) \
+           and not any(isinstance(n, (ast.Yield, ast.YieldFrom, ast.Await)) for n in ast.walk(s2)):
+          comp = ast.ListComp(elt=e, generators=[ast.comprehension(target=s2.target, iter=s2.iter, ifs=[], is_async=0)])
+          s1.value = ast.copy_location(ast.Call(func=ast.Name(id='sum', ctx=ast.Load()), args=[comp], keywords=[]), s1.value)
+          del b[k + 1]
+          stats['loops_raised'] = stats.get('loops_raised', 0) + 1
+          continue
+      k += 1
+  ast.fix_missing_locations(fnode)
+
+
 def raise_append_loops(fnode, bsrc, stats):
   """`acc = []` directly followed by `for T in IT: [if C:] acc.append(E)` (nothing else in the loop), in a function whose reference version has
   comprehensions and no such accumulation loop: the comprehension `acc = [E for T in IT if C]` again (the same calls in the same order; the list
@@ -2391,6 +2423,14 @@ def lower_new_ifexps(fnode, base_ifexps, stats):
 
 
 def _lower_new_ifexps_once(fnode, base_ifexps, stats):
+  # (A if c else B)(args) as a statement: the callee is chosen first, then the arguments are evaluated -- the same as an if statement with two calls
+  for b in _blocks(fnode):
+    for i, st in enumerate(b):
+      if (isinstance(st, ast.Expr) and isinstance(st.value, ast.Call) and isinstance(st.value.func, ast.IfExp) and ast.unparse(st.value.func) not in base_ifexps):
+        c = st.value
+        mk = lambda fn_: ast.Expr(value=ast.Call(func=fn_, args=copy.deepcopy(c.args), keywords=copy.deepcopy(c.keywords)), lineno=st.lineno, col_offset=st.col_offset)
+        b[i] = ast.If(test=c.func.test, body=[mk(c.func.body)], orelse=[mk(c.func.orelse)], lineno=st.lineno, col_offset=st.col_offset)
+        stats['ifexps'] = stats.get('ifexps', 0) + 1
   for b in _blocks(fnode):
     i = 0
     while i < len(b):
@@ -2480,6 +2520,7 @@ def rename_function(fnode, rel, qualname, base_funcs, stats):
         keywords_to_positional(fnode, bsrc, stats)
         inline_direct_nested_calls(fnode, bsrc, stats)
         raise_append_loops(fnode, bsrc, stats)
+        raise_sum_loops(fnode, bsrc, stats)
         restore_guarded_setdefault(fnode, bsrc, stats)
         restore_guard_arms(fnode, bsrc, stats)
         split_isinstance_handlers(fnode, bsrc, stats)
